@@ -328,6 +328,10 @@ def check_c08(tier, seed):
                 "invalid defaults whose generated unit tests must fail exactly when contradictory (cargo test). A case is one declaration; non-trivial = its observed verdict was "
                 "compared with a MUST_ACCEPT or MUST_REJECT expectation.")
     groups = [("all", cratebuild.ALL_FEATURES, FULL_DEPS), ("f0", ["std"], "")]
+    if tier == "thorough":
+        # single-feature sets: every feature-gated item must be refused exactly when its own feature is off
+        for f in ("serde", "arbitrary", "regex", "new_unchecked"):
+            groups.append((f, ["std", f], FULL_DEPS))
     for gname, feats, deps in groups:
         cases = corpus_verdict.build(tier, seed, feats, gname)
         vc = verdict.VerdictCrate("c08-%s-%s" % (gname, tier), feats, extra_deps=deps)
